@@ -29,6 +29,10 @@ func (env *Env) withBound(name string, v Val) *Env {
 }
 
 func (fc *FnCtx) fail(format string, a ...interface{}) {
+	if fc.evalDepth > 0 {
+		// raised while evaluating a contract expression against the function's current code
+		panic(vcError{fc.name + ": contract expression does not fit the code: " + fmt.Sprintf(format, a...)})
+	}
 	panic(vcError{fc.name + ": " + fmt.Sprintf(format, a...)})
 }
 
@@ -65,6 +69,8 @@ func (fc *FnCtx) seqOf(v Val, h *HeapState) (arr, off, ln string) {
 }
 
 func (fc *FnCtx) evalExpr(e Expr, env *Env) Val {
+	fc.evalDepth++
+	defer func() { fc.evalDepth-- }()
 	switch x := e.(type) {
 	case *ELit:
 		switch x.Kind {
